@@ -29,6 +29,8 @@ def tla_value(v):
         return json.dumps(v)
     if isinstance(v, (set, frozenset)):
         return '{' + ', '.join(sorted(tla_value(x) for x in v)) + '}'
+    if isinstance(v, list) and v and all(isinstance(x, dict) for x in v):   # a SET of records
+        return '{' + ', '.join(tla_value(x) for x in v) + '}'
     if isinstance(v, (list, tuple)):
         return '<<' + ', '.join(tla_value(x) for x in v) + '>>'
     if isinstance(v, dict):
